@@ -364,7 +364,20 @@ class G:
             else:
                 tgt = OTHER[k % len(OTHER)] if struct_hint else str(k)
                 style = r.randrange(4)
-                if style == 0:
+                if len(cparts) > 1 and self.pr("shape_mixed", 0.0):
+                    # a default instruction and one dedicated to a counterpart side by side, in either order; mostly the
+                    # pair is valid (the one that applies names the member), sometimes the dedicated one forgets the name
+                    ded = self.ch(cparts)
+                    nm = self.ch(["map", "into", "from", "map_owned", "owned_into"])
+                    forget = self.pr("shape_forget", 0.15)
+                    pair = [Instr(nm, self.ch(["~.clone()", "~ + 1", tgt, tgt + ", ~.clone()"]), tag=("mmap", None)),
+                            Instr(nm, ded + "| " + (self.ch(["~.clone()", "~ + 1"]) if forget else tgt + self.ch(["", ", ~.clone()", ", ~ + 1"])), tag=("mmap", ded))]
+                    if r.random() < 0.5:
+                        pair.reverse()
+                    fa += pair
+                    if nm != "map" and r.random() < 0.7:
+                        fa.append(Instr("map", tgt, tag=("mmap", None)))
+                elif style == 0:
                     fa.append(Instr("map", tgt, tag=("mmap", None)))
                 elif style == 1:
                     fa.append(Instr("map_owned", tgt, tag=("mmap", None)))
@@ -383,10 +396,13 @@ class G:
             shape = self.ch(["tuple", "named"])
             hint = "{}" if shape == "tuple" else "()"
             cparts = [self.ch(["A", "B"])]
+            if self.pr("shape_multi", 0.0):
+                cparts = ["A", "B"]
             attrs = []
-            for _ in range(r.randrange(1, 3)):
-                nm = self.ch(ALL24 if self.pr("fallible", 0.3) else MAP12)
-                attrs.append(self.trait_instr(nm, cparts[0], False, hint))
+            for c in cparts:
+                for _ in range(r.randrange(1, 3)):
+                    nm = self.ch(ALL24 if self.pr("fallible", 0.3) else MAP12)
+                    attrs.append(self.trait_instr(nm, c, False, hint))
             fields = self.shape_fields(shape, r.randrange(1, 5), cparts, shape == "tuple")
             it = Item("struct", name, shape, "", attrs, fields)
             it.meta["cparts"] = cparts
@@ -801,7 +817,7 @@ PROFILES = {
     "parents": {"lit_args": 0.05, "parent_heavy": 0.8, "parent_depth": 3, "nested_parent": 0.45, "nested_instr": 0.5, "max_fields": 4, "fallible": 0.3, "multi_cpart": 0.5, "hints": 0.3,
                 "dedicated": 0.45, "member_instr": 0.3, "update": 0.1, "vars": 0.1, "generic_cpart": 0.25, "second_parent": 0.5, "attr_params": 0.25},
     "trait-repeat": {"vars": 0.4, "fallible": 0.3, "attr_params": 0.1, "enum_item": 0.3, "lit": 0.3},
-    "shape-change": {"shape_change": 0.8, "shape_ghost": 0.3, "fallible": 0.3, "max_variants": 3, "variant_map": 0.1, "member_try": 0.1, "multi_instr": 0.5},
+    "shape-change": {"shape_change": 0.8, "shape_multi": 0.4, "shape_mixed": 0.4, "multi_cpart": 0.4, "shape_ghost": 0.3, "fallible": 0.3, "max_variants": 3, "variant_map": 0.1, "member_try": 0.1, "multi_instr": 0.5},
     "unknowns": {"unknowns": 1.0, "max_fields": 3, "member_instr": 0.3, "multi_instr": 0.5, "max_variants": 3, "variant_map": 0.2},
     "faults": {"max_fields": 3, "member_instr": 0.4, "multi_cpart": 0.3, "fallible": 0.4, "drop_err": 0.15, "extra_err": 0.1, "ghost_field": 0.2, "ghost_default": 0.5,
                "dedicated": 0.4, "ghosts": 0.2, "where_clause": 0.2, "hints": 0.4, "drop_child_parents": 0.3, "drop_cp_entry": 0.2, "type_hint": 0.3,
